@@ -189,12 +189,17 @@ pub fn main(o: &Opts) -> Result<i32, String> {
                 };
                 let mut nmap = HashMap::new();
                 nmap.insert("*".to_string(), nm.to_string());
+                // under a mixed-backend run the self-named scenarios rotate through the three resolver shapes
+                let mut bk = HashMap::new();
+                if backends_mode != "default" {
+                    bk.insert("*".to_string(), [Backend::Default, Backend::RingDefault, Backend::DefaultRing][si % 3]);
+                }
                 jobs.push(Job {
                     scn_idx: sl,
                     inst: Instance {
                         names: nmap,
                         ps,
-                        backends: HashMap::new(),
+                        backends: bk,
                         seed: seed.wrapping_mul(1_000_003).wrapping_add(si as u64),
                         prologue_len: PROLOGUE_LENS[(si + seed as usize) % PROLOGUE_LENS.len()],
                         psks: vec![],
